@@ -88,6 +88,10 @@ MACROS = {
     "IN_ARRAY": "(ctx->parent&&(ctx->parent->type==CONFIG_TYPE_ARRAY))",
     "IN_LIST": "(ctx->parent&&(ctx->parent->type==CONFIG_TYPE_LIST))",
     "CAPTURE_PARSE_POS": "capture_parse_pos(scanner,scan_ctx,(S))",
+    # the skeleton's macros as LalrEngine.v transcribes them
+    "yypact_value_is_default": "((Yyn)==YYPACT_NINF)",
+    "yytable_value_is_error": "0",
+    "YYTRANSLATE": "(0<=(YYX)&&(YYX)<=YYMAXUTOK?YY_CAST(yysymbol_kind_t,yytranslate[YYX]):YYSYMBOL_YYUNDEF)",
 }
 
 
